@@ -45,6 +45,31 @@ def fixed_histories():
     return hs
 
 
+def extra_histories():
+    """(layout, out, steps): round-3 classes. (a) Start while the torrent is Stopping on behalf of a Verify issued while it ran (the
+    tracker has answered an announce, so Stopping lasts until the delayed 'stopped' answer / TrackerStopTimeout); (b) AddPeer with the
+    address of a reachable seed while the torrent is Allocating / Verifying on a start (files partly missing): the peer connects
+    before the bitfield is known."""
+    dl1 = [S(wait="downloading"), S(do="seed", n=1), S(do="blocks", n=2), S(wait="have>=1")]
+    stop = [S(do="stop"), S(do="checkstopped")]
+    ex = []
+    for gk, slp in (("stopping", 700), ("stoptimeout", 1500)):
+        ex.append(("single", False, [S(do="start")] + dl1 + [S(do="gate", kind=gk), S(do="verify"), S(wait="stopping", ms=1000), S(do="start"), S(do="sleep", ms=slp),
+                                                             S(do="release", kind=gk), S(do="sleep", ms=300)] + stop))
+    ex.append(("multi", True, [S(do="start")] + dl1 + [S(do="gate", kind="stopping"), S(do="verify"), S(wait="stopping", ms=1000), S(do="start"), S(do="start"),
+                                                       S(do="release", kind="stopping"), S(wait="stopped", ms=4000), S(do="stats")] + stop))   # ends with a stop: what the code makes of the Verify+Start pair is not judged (DESIGN 11.3)
+    vp = [S(do="mutate", kind="deletesome"), S(do="gate", kind="verify"), S(do="start"), S(wait="gated:verify", ms=2500), S(do="addseed"), S(wait="peer", ms=2500),
+          S(do="sleep", ms=150), S(do="release", kind="verify"), S(wait="downloading", ms=2500)]
+    for lay in ("multi", "padmid", "empties"):
+        ex.append((lay, False, [S(do="start")] + dl1 + stop + vp))
+    ex.append(("multi", True, [S(do="start")] + dl1 + stop + vp + [S(do="stats")]))
+    ap = [S(do="gate", kind="alloc"), S(do="start"), S(wait="gated:alloc", ms=2500), S(do="addseed"), S(wait="peer", ms=2500), S(do="sleep", ms=150),
+          S(do="release", kind="alloc"), S(wait="downloading", ms=2500)]
+    ex.append(("single", False, ap))
+    ex.append(("multi", False, [S(do="start")] + dl1 + stop + [S(do="mutate", kind="deletesome")] + ap))
+    return ex
+
+
 def random_history(rng):
     steps = []
     st = "S"       # S stopped / R running (abstract expectation; the driver waits are best effort)
@@ -54,7 +79,7 @@ def random_history(rng):
     n = rng.randint(3, 7)
     for _ in range(n):
         if st == "S":
-            c = rng.choice(["start", "start", "start", "verify", "mutate", "allocstop", "misc", "stop", "startstart"])
+            c = rng.choice(["start", "start", "start", "verify", "mutate", "allocstop", "misc", "stop", "startstart", "earlypeer"])
             if c == "start":
                 steps += [S(do="start"), S(wait="running")]
                 st = "R"
@@ -74,6 +99,17 @@ def random_history(rng):
                 steps += [S(do="stop"), S(do="checkstopped")]
             elif c == "misc":
                 steps += [S(do=rng.choice(["announce", "addpeer", "addtracker", "stats", "peers"]), n=rng.randint(1, 9))]
+            elif c == "earlypeer":
+                # the address of a reachable seed is added while the torrent is Allocating / Verifying (verification on a start needs
+                # files partly missing: layouts with >= 2 data files, see run())
+                g = "alloc"
+                if data and rng.random() < 0.7:
+                    steps += [S(do="mutate", kind="deletesome")]
+                    g = rng.choice(["verify", "verify", "alloc"])
+                    progress, complete = 0, False
+                steps += [S(do="gate", kind=g), S(do="start"), S(wait="gated:" + g, ms=2000), S(do="addseed"), S(wait="peer", ms=2000), S(do="sleep", ms=100),
+                          S(do="release", kind=g), S(wait="running")]
+                st = "R"
             else:
                 steps += [S(do="stop")]
         else:
@@ -92,7 +128,7 @@ def random_history(rng):
                 steps += [S(do="verify"), S(do="checkstopped")]
                 st = "S"
             elif c == "stopstart":
-                steps += [S(do="gate", kind="stopping"), S(do="stop"), S(wait="stopping", ms=1000), S(do=rng.choice(["start", "start", "verify", "stop"])),
+                steps += [S(do="gate", kind="stopping"), S(do=rng.choice(["stop", "stop", "verify"])), S(wait="stopping", ms=1000), S(do=rng.choice(["start", "start", "verify", "stop"])),
                           S(do="sleep", ms=rng.choice([700, 2900])), S(do="release", kind="stopping"), S(do="sleep", ms=100)]
                 steps += [S(do="stop"), S(do="checkstopped")]
                 st = "S"
@@ -165,12 +201,30 @@ def project(raw_path, crashed):
     return out
 
 
+def early_peers(evs):
+    """histories in which a peer was connected while the torrent was Allocating / Verifying on a start (not a Verify command)"""
+    return 1 if any(e["ev"] == "snap" and e["status"] in ("Allocating", "Verifying") and e["peers"] > 0 and not e["doVerify"] for e in evs) else 0
+
+
+def start_in_verify_stop(evs):
+    """histories in which a Start call was open while a snapshot showed Stopping with a verification request pending"""
+    last, open_call = None, False
+    for e in evs:
+        if e["ev"] == "snap":
+            last = e
+        elif e["op" if "op" in e else "ev"] == "start":
+            open_call = e["ev"] == "call"
+        if (open_call or (e["ev"] == "ret" and e["op"] == "start")) and last and last["status"] == "Stopping" and last["doVerify"]:
+            return 1        # (the snapshot may also follow the "call" line: both are written by different goroutines)
+    return 0
+
+
 def history_class(h):
     """abstract history string used in violation signatures (commands, gates and mutations in order)."""
     parts = []
     for s in h["steps"]:
         d = s.get("do")
-        if d in ("start", "stop", "verify"):
+        if d in ("start", "stop", "verify", "addseed"):
             parts.append(d)
         elif d == "mutate":
             parts.append("mut:" + s["kind"])
@@ -204,10 +258,14 @@ def run(ctx):
     for k in range(2):
         hs.append({"id": len(hs) + 1, "layout": "single", "unit": 16384, "seed": 2000 + k, "out": True,
                    "steps": [S(do="start")] + dl1 + [S(do="stop"), S(do="checkstopped"), S(do="sleep", ms=300), S(do="stats"), S(do="start")] + dl1 + [S(do="stop"), S(do="checkstopped"), S(do="sleep", ms=300), S(do="stats")]})
+    for lay, out, steps in extra_histories():
+        hs.append({"id": len(hs) + 1, "layout": lay, "unit": 16384, "seed": 3000 + len(hs), "out": out, "steps": steps})
     nrand = ctx.pick(70, 900)
     for i in range(nrand):
         hs.append({"id": len(hs) + 1, "layout": rng.choice(LAYOUTS), "unit": 16384, "seed": rng.randrange(1, 1 << 30), "steps": random_history(rng),
                    "out": rng.random() < 0.3})
+        if hs[-1]["layout"] == "single" and any(s.get("do") == "addseed" for s in hs[-1]["steps"]):
+            hs[-1]["layout"] = "multi"      # deleting "some" files of a single-file torrent deletes all of them: no verification on start
     by_id = {h["id"]: h for h in hs}
     raws, crashed = xc.run_scenarios(ctx, drv, hs, nproc=ctx.pick(8, 12), per_timeout=60, flag="-histories")
     crash_site = {c["id"]: (c["panic"] or "exit %s" % c["rc"]) for c in crashed}
@@ -221,6 +279,8 @@ def run(ctx):
         ctx.oblig("C04.L5(ret)", sum(1 for e in evs if e["ev"] == "ret"))
         ctx.oblig("C04.L6(final)", sum(1 for e in evs if e["ev"] == "final" and e["phase"] == "end"))
         ctx.oblig("C04.L3(handles)", sum(1 for e in evs if e["ev"] == "stoppedobs"))
+        ctx.oblig("C04.L5.addpeer(early peer)", early_peers(evs))
+        ctx.oblig("C04.L1(start while stopping for verify)", start_in_verify_stop(evs))
     ctx.extra["histories_run"] = len(hs)
     ctx.extra["histories_judged"] = len(abstract)
     ctx.extra["histories_crashed"] = [{"id": c["id"], "panic": c["panic"], "history": history_class(c["scenario"])} for c in crashed]
